@@ -140,6 +140,8 @@ def eatRawTokens (kind : SyntaxKind) : Nat :=
 
 /-- `Parser::eat` -/
 def eat (kind : SyntaxKind) : G Bool := do
+  -- `eat(EOF)` would move `pos` past the end of the input; the grammar never asks for it
+  if kind == .EOF then fail (.modelError "Parser::eat(EOF)")
   if !(← at' kind) then return false
   doBump kind (eatRawTokens kind)
   return true
